@@ -216,3 +216,7 @@ def run(ctx):
     # every batch and every keyspace takes part in the seqno restore
     D.loops_visit_all(ctx, "R-C11.6", only=("db::Database::recover", "recovery::recover_sealed_memtables"))
 
+    # ---- borrowed obligations (mechanisms owned by other properties that this property's verdict also rests on)
+    # what recovery leaves at the journal's tail decides whether writes made after the reopen are still there after the next one
+    ctx.borrow("C03", ["R-C03.3"], "R-C11.7")
+
